@@ -155,6 +155,15 @@ func runStandard(t *testing.T, p *Prop, sc *world.Scenario, out *Outcome) {
 		out.Probes[k] += v
 	}
 	out.Trace = w.S.Trace
+	if w.S.KeepTrace {
+		for _, e := range w.KV.GT {
+			line := fmt.Sprintf("GT#%d %s %s class=%s applied=%v err=%q fault=%s steps=%d/%d/%d:", e.Seq, e.Task, e.Call, e.Class, e.Applied, clipS(e.Err), e.Fault, e.EnterStep, e.ApplyStep, e.RetStep)
+			for _, m := range e.Muts {
+				line += fmt.Sprintf(" %s(%s@%d val=%q old=%q)", m.Op, m.Raw, m.Rev, clipS(string(m.Val)), clipS(string(m.Old)))
+			}
+			out.Trace = append(out.Trace, line)
+		}
+	}
 	out.StateHash = stateHash(w)
 	// fold the history into the hash so that "same hash" means same observable run
 	hb, _ := json.Marshal(w.Recs)
@@ -197,4 +206,11 @@ func stateHash(w *world.World) uint64 {
 		}
 	}
 	return rt.HashStrings(parts)
+}
+
+func clipS(s string) string {
+	if len(s) > 40 {
+		return s[:40]
+	}
+	return s
 }
